@@ -503,3 +503,40 @@ def g_c14(rng, tier, budget):
 
 
 GENERATORS.update({"C14": g_c14})
+
+
+def gen_pp_panic(rng, tier, budget):
+    """documented panic of the packed-pair finders: exactly when hay.len < min_haystack_len;
+    search needle = construction needle, or a different needle of at most the same length."""
+    n = 0
+    for lanes in ([4] if tier == "quick" else [4, 8]):
+        for needle in ([0x61, 0x62], [0x61, 0x62, 0x63, 0x64, 0x65, 0x66, 0x67, 0x68], [0x61] * 11, [0x61, 0x62] * 10):
+            L = len(needle)
+            for (i1, i2) in sorted(set([(0, 1), (1, 0), (0, L - 1), (L - 1, L - 2)])):
+                if i1 == i2:
+                    continue
+                minlen = max(L, max(i1, i2) + lanes)
+                for H in range(0, minlen + 4 * lanes + 2):
+                    for sneedle in (needle, [0x7A], needle[:1], needle[: max(1, L - lanes)], [0x78] * L, []):
+                        for fill in (0x78, needle[0]):
+                            hay = [fill] * H
+                            exp = "panic" if H < minlen else "nopanic"
+                            yield ("ppfind %d %s %d %d %d %s %d %s" % (lanes, hx(needle), i1, i2, 0, hx(sneedle),
+                                                                       (4096 - H) % 4096, hx(hay)),
+                                   dict(family="pp-panic-%s" % exp, domain="out" if sneedle != needle else "in",
+                                        expect=exp))
+                            n += 1
+                    hay = [0x78] * H
+                    exp = "panic" if H < minlen else "nopanic"
+                    yield ("pppre %d %s %d %d %d %s" % (lanes, hx(needle), i1, i2, (4096 - H) % 4096, hx(hay)),
+                           dict(family="pppre-panic-%s" % exp, domain="in", expect=exp))
+                    if budget and n >= budget:
+                        return
+
+
+def g_c14(rng, tier, budget):
+    yield from gen_prestate(rng, tier, budget)
+    yield from gen_pp_panic(rng, tier, budget)
+
+
+GENERATORS.update({"C14": g_c14})
